@@ -34,6 +34,7 @@ package main
 
 import (
 	"context"
+	"encoding/json"
 	"fmt"
 	"os"
 	"sort"
@@ -189,7 +190,10 @@ type c06XR struct {
 	Fin      bool   `json:"fin"`      // carries the XR controller's finalizer
 	Deleting bool   `json:"deleting"` // deletionTimestamp set (only with Fin)
 	Status   bool   `json:"status"`   // has a status
-	MF       string `json:"mf"`       // managedFields: "legacy" | "ssa" | "ssabfa"  (not modelled: oracle)
+	MF       string `json:"mf"`       // managedFields class: "legacy" | "ssa" | "ssabfa" | "bfassa" | "ssa3" | "bfa2" | "bfaonly"
+	// the manager names of the seeded object's metadata.managedFields, in order, read back from the store by
+	// c06Run (what the model's XR.mf starts from)
+	Mgrs []string `json:"mgrs"`
 }
 
 type c06Env struct {
@@ -241,18 +245,19 @@ type c06Read struct {
 
 // c06XRead: what the lagging cache served for one XR read (abstract content), recorded from the real run.
 type c06XRead struct {
-	Name     string `json:"name"`
-	Found    bool   `json:"found"`
-	Stale    bool   `json:"stale"`             // an older state of that name than the stored one
-	Ref      string `json:"ref"`               // canonical spec.claimRef: apiVersion|kind|namespace|name[+uid] ("" = unset)
-	Labeled  bool   `json:"labeled,omitempty"` // (older corpus lines)
-	Lbl      string `json:"lbl"`               // claim labels: "namespace/name" ("" = none)
-	Fin      bool   `json:"fin"`
-	Deleting bool   `json:"deleting"`
-	Status   bool   `json:"status"`
-	Gen      int    `json:"gen"`      // status.observed
-	AbsAfter int    `json:"absAfter"` // stale reads: how often the name was absent between the served state and the stored one
-	DupAfter int    `json:"dupAfter"` // stale reads: how many newer, not current states of the same incarnation have the same abstract content
+	Name     string   `json:"name"`
+	Found    bool     `json:"found"`
+	Stale    bool     `json:"stale"`             // an older state of that name than the stored one
+	Ref      string   `json:"ref"`               // canonical spec.claimRef: apiVersion|kind|namespace|name[+uid] ("" = unset)
+	Labeled  bool     `json:"labeled,omitempty"` // (older corpus lines)
+	Lbl      string   `json:"lbl"`               // claim labels: "namespace/name" ("" = none)
+	Fin      bool     `json:"fin"`
+	Deleting bool     `json:"deleting"`
+	Status   bool     `json:"status"`
+	Gen      int      `json:"gen"`      // status.observed
+	Mf       []string `json:"mf"`       // manager names of metadata.managedFields (server-side wiring only, else empty)
+	AbsAfter int      `json:"absAfter"` // stale reads: how often the name was absent between the served state and the stored one
+	DupAfter int      `json:"dupAfter"` // stale reads: how many newer, not current states of the same incarnation have the same abstract content
 }
 
 type c06Rec struct {
@@ -264,7 +269,6 @@ type c06Rec struct {
 	Env    []c06Env   `json:"env"`
 	// oracle, recorded from the real run
 	Read   c06Read    `json:"read"`
-	Up     string     `json:"up"`     // managed-fields upgrade patch: "" (none issued / not reached) | "ok" | "invalid"
 	Names  []string   `json:"names"`  // name oracle: the names the generator drew during this reconcile, in order
 	XReads []c06XRead `json:"xreads"` // what each XR read of this reconcile returned, in order
 }
@@ -288,6 +292,7 @@ type c06Call struct {
 	Name    string `json:"name"`
 	Sub     string `json:"sub"`
 	PT      string `json:"pt"`
+	Op      string `json:"op"` // json patches: which of Upgrade's two patches ("clear" | "remove:<index>"), else ""
 	Outcome string `json:"outcome"`
 	Err     string `json:"err"`
 	Applied bool   `json:"applied"`
@@ -301,12 +306,13 @@ type c06OClaim struct {
 }
 
 type c06OXR struct {
-	Name     string `json:"name"`
-	Ref      string `json:"ref"`
-	Lbl      string `json:"lbl"` // claim labels "namespace/name" ("" = none)
-	Fin      bool   `json:"fin"`
-	Deleting bool   `json:"deleting"`
-	Status   bool   `json:"status"`
+	Name     string   `json:"name"`
+	Ref      string   `json:"ref"`
+	Lbl      string   `json:"lbl"` // claim labels "namespace/name" ("" = none)
+	Fin      bool     `json:"fin"`
+	Deleting bool     `json:"deleting"`
+	Status   bool     `json:"status"`
+	Mf       []string `json:"mf"` // manager names of metadata.managedFields, in order (server-side wiring only, else empty)
 }
 
 type c06ORec struct {
@@ -431,6 +437,13 @@ func c06SeedXR(st *Store, x c06XR) {
 		// the entries in the other order, between two unrelated managers: Upgrade loops over all of them
 		mf = append(mf, map[string]any{"manager": "kubectl", "operation": "Update"}, map[string]any{"manager": "before-first-apply", "operation": "Update"},
 			map[string]any{"manager": claim.FieldOwnerXR, "operation": "Apply"}, map[string]any{"manager": "apiextensions.crossplane.io/composite", "operation": "Apply"})
+	case "bfa2":
+		// two before-first-apply entries: Upgrade removes the LAST one (one per reconcile)
+		mf = append(mf, map[string]any{"manager": claim.FieldOwnerXR, "operation": "Apply"}, map[string]any{"manager": "before-first-apply", "operation": "Update"},
+			map[string]any{"manager": "kubectl", "operation": "Update"}, map[string]any{"manager": "before-first-apply", "operation": "Update", "subresource": "status"})
+	case "bfaonly":
+		// a before-first-apply entry but no entry of the claim manager: Upgrade clears everything
+		mf = append(mf, map[string]any{"manager": "crossplane", "operation": "Update"}, map[string]any{"manager": "before-first-apply", "operation": "Update"})
 	case "ssa3":
 		// the claim manager first, others after it (a later entry lacks what an earlier one has)
 		mf = append(mf, map[string]any{"manager": claim.FieldOwnerXR, "operation": "Apply"}, map[string]any{"manager": "crossplane", "operation": "Update"},
@@ -495,10 +508,27 @@ func c06AbsClaim(u *unstructured.Unstructured) c06OClaim {
 	return c06OClaim{Exists: true, Ref: c06XRefStr(u), Fin: c06HasFin(u, c06Finalizer), Deleting: u.GetDeletionTimestamp() != nil}
 }
 
+// c06ObserveMF: managed fields are part of the abstract XR state in the server-side wiring only (the
+// client-side wiring has the Nop upgrader: nothing reads them). Set per scenario by c06Run.
+var c06ObserveMF bool
+
+// c06Managers: the manager name of every metadata.managedFields entry, in order.
+func c06Managers(u *unstructured.Unstructured) []string {
+	out := []string{}
+	for _, e := range u.GetManagedFields() {
+		out = append(out, e.Manager)
+	}
+	return out
+}
+
 func c06AbsXR(u *unstructured.Unstructured) c06OXR {
 	_, hasStatus := u.Object["status"]
+	mf := []string{}
+	if c06ObserveMF {
+		mf = c06Managers(u)
+	}
 	return c06OXR{Name: u.GetName(), Ref: c06CRefStr(u), Lbl: c06Lbl(u), Fin: len(u.GetFinalizers()) > 0,
-		Deleting: u.GetDeletionTimestamp() != nil, Status: hasStatus}
+		Deleting: u.GetDeletionTimestamp() != nil, Status: hasStatus, Mf: mf}
 }
 
 func c06XRs(st *Store) []c06OXR {
@@ -679,8 +709,9 @@ type c06Cache struct {
 	// drawn; the latest counts when a name is drawn twice); the Get inside the client-side Apply is not looked at
 	// by the code and only counts for a name no deciding read returned anything for.
 	views map[string]string
-	draws int // names drawn by the generator in this reconcile
-	drawn int // ... of which an availability Get was seen
+	draws int            // names drawn by the generator in this reconcile
+	drawn int            // ... of which an availability Get was seen
+	ops   map[int]string // call index of the current reconcile -> which managed-fields JSON patch it was
 }
 
 func (c *c06Cache) setView(name, v string) {
@@ -777,7 +808,7 @@ func (c *c06Cache) Get(ctx context.Context, key client.ObjectKey, obj client.Obj
 		return err // the process is dead: the call never happened
 	}
 	occ := len(c.rec.XReads)
-	rd := c06XRead{Name: key.Name}
+	rd := c06XRead{Name: key.Name, Mf: []string{}}
 	last := &c.Store.Log[len(c.Store.Log)-1]
 	if f, isF := c.faults[last.Index]; last.Outcome != "ok" || (isF && (f.O == "lost" || f.O == "lostNoop")) {
 		c.rec.XReads = append(c.rec.XReads, rd) // injected fault: nothing was read
@@ -832,7 +863,7 @@ func (c *c06Cache) Get(ctx context.Context, key client.ObjectKey, obj client.Obj
 		u := &unstructured.Unstructured{Object: obj.(runtime.Unstructured).UnstructuredContent()}
 		a := c06AbsXR(u)
 		gen, _, _ := unstructured.NestedInt64(u.Object, "status", "observed")
-		rd.Found, rd.Ref, rd.Lbl, rd.Fin, rd.Deleting, rd.Status, rd.Gen = true, a.Ref, a.Lbl, a.Fin, a.Deleting, a.Status, int(gen)
+		rd.Found, rd.Ref, rd.Lbl, rd.Fin, rd.Deleting, rd.Status, rd.Gen, rd.Mf = true, a.Ref, a.Lbl, a.Fin, a.Deleting, a.Status, int(gen), a.Mf
 		c.setView(key.Name, c06RefClass(u, c.who))
 	} else if kerrors.IsNotFound(err) {
 		c.setView(key.Name, "absent")
@@ -874,7 +905,33 @@ func (c *c06Cache) Update(ctx context.Context, obj client.Object, opts ...client
 	return c.fix(n0, obj, before, c.keepVersion(obj, func() error { return c.Store.Update(ctx, obj, opts...) }))
 }
 
+// c06PatchOp classifies a JSON patch of the managed-fields upgrader by its first operation.
+func c06PatchOp(patch client.Patch, obj client.Object) string {
+	if patch.Type() != types.JSONPatchType {
+		return ""
+	}
+	data, err := patch.Data(obj)
+	if err != nil {
+		return "undecodable"
+	}
+	var ops []map[string]any
+	if err := json.Unmarshal(data, &ops); err != nil || len(ops) == 0 {
+		return "undecodable"
+	}
+	op, path := strOf(ops[0], "op"), strOf(ops[0], "path")
+	switch {
+	case op == "replace" && path == "/metadata/managedFields":
+		return "clear"
+	case op == "remove" && strings.HasPrefix(path, "/metadata/managedFields/"):
+		return "remove:" + strings.TrimPrefix(path, "/metadata/managedFields/")
+	}
+	return op + ":" + path
+}
+
 func (c *c06Cache) Patch(ctx context.Context, obj client.Object, patch client.Patch, opts ...client.PatchOption) error {
+	if op := c06PatchOp(patch, obj); op != "" && c.ops != nil && !c.Store.Crashed() {
+		c.ops[c.Store.Calls] = op // the index this call is about to get (calls are numbered per Revive)
+	}
 	n0, before := len(c.Store.Log), c06Content(obj)
 	return c.fix(n0, obj, before, c.keepVersion(obj, func() error { return c.Store.Patch(ctx, obj, patch, opts...) }))
 }
@@ -935,8 +992,13 @@ func c06Run(s *c06Scn) (c06Obs, []Mon) {
 	for i, p := range s.Peers {
 		c06SeedClaim(st, p.Claim, ids[i+1])
 	}
-	for _, x := range s.XRs {
+	c06ObserveMF = s.Syncer == "ssa"
+	for i, x := range s.XRs {
 		c06SeedXR(st, x)
+		s.XRs[i].Mgrs = []string{}
+		if u := st.Peek(c06XRGVK.GroupKind(), "", x.Name); u != nil {
+			s.XRs[i].Mgrs = c06Managers(u)
+		}
 	}
 	flags := &feature.Flags{}
 	if s.Syncer == "ssa" {
@@ -1021,6 +1083,7 @@ func c06Run(s *c06Scn) (c06Obs, []Mon) {
 	// monitor state captured right before each call
 	var preXRExists bool
 	var preXRRef string
+	var preXRBind string // full spec.claimRef + claim labels of the XR a write is addressed to
 	var preClaimRef string
 	var preClaimExists bool
 
@@ -1084,11 +1147,10 @@ func c06Run(s *c06Scn) (c06Obs, []Mon) {
 		}
 		st.Plan = func(c CallInfo) Outcome { return faults[c.Index] }
 		rec.Read = c06Read{}
-		rec.Up = ""
 		rec.Names = []string{}
 		rec.XReads = []c06XRead{}
 		curRec = rec
-		cache.rec, cache.who, cache.views, cache.draws, cache.drawn = rec, me, map[string]string{}, 0, 0
+		cache.rec, cache.who, cache.views, cache.draws, cache.drawn, cache.ops = rec, me, map[string]string{}, 0, 0, map[int]string{}
 		claimReads := 0
 		st.Lag = func(k objKey, versions int) int {
 			if k.GK != cgk || k.NS != me.NS || k.Name != me.Name {
@@ -1113,10 +1175,10 @@ func c06Run(s *c06Scn) (c06Obs, []Mon) {
 			return back
 		}
 		st.Before = func(c CallInfo) {
-			preXRExists, preXRRef = false, ""
+			preXRExists, preXRRef, preXRBind = false, "", ""
 			if c.GK == xgks && c.IsWrite() {
 				if u := st.Peek(xgk, "", c.Name); u != nil {
-					preXRExists, preXRRef = true, c06RefClass(u, me)
+					preXRExists, preXRRef, preXRBind = true, c06RefClass(u, me), c06CRefStr(u)+" labels "+c06Lbl(u)
 				}
 			}
 			cl := st.Peek(cgk, me.NS, me.Name)
@@ -1157,6 +1219,15 @@ func c06Run(s *c06Scn) (c06Obs, []Mon) {
 						addMon("C06:foreign-xr-written-after-raced-read", why+fmt.Sprintf("; the XR as read by this reconcile was %s; the request carries no resourceVersion", map[string]string{"absent": "absent", "": "unbound", "self": "bound to this claim"}[view]))
 					}
 				}
+				if preXRExists && c.Verb == "patch" && c.PatchType == "json" {
+					// the managed-fields patches touch metadata.managedFields only: whatever managers the XR has and
+					// whichever of the two patches it is, spec.claimRef and the claim labels stay (upgrade_keeps_refs)
+					if u := st.Peek(xgk, "", c.Name); u == nil {
+						addMon("C06:upgrade-changed-binding", fmt.Sprintf("the managed-fields JSON patch (%s) removed XR %q", cache.ops[c.Index], c.Name))
+					} else if now := c06CRefStr(u) + " labels " + c06Lbl(u); now != preXRBind {
+						addMon("C06:upgrade-changed-binding", fmt.Sprintf("the managed-fields JSON patch (%s) changed the binding of XR %q from %q to %q", cache.ops[c.Index], c.Name, preXRBind, now))
+					}
+				}
 				if !preXRExists && (c.Verb == "create" || (c.Verb == "patch" && c.PatchType == "apply")) {
 					// the claim controller created XR c.Name
 					if !preClaimExists || preClaimRef != c.Name {
@@ -1175,14 +1246,6 @@ func c06Run(s *c06Scn) (c06Obs, []Mon) {
 				if preXRExists && preClaimExists && preClaimRef != c.Name {
 					// writes and deletes go to the XR the claim durably references, never to another one
 					addMon("C06:write-off-ref", fmt.Sprintf("%s %s addressed to XR %q while the stored spec.resourceRef.name of claim %s/%s is %q (claim exists: %v)", c.Verb, c.PatchType, c.Name, me.NS, me.Name, preClaimRef, preClaimExists))
-				}
-			}
-			if c.GK == xgks && c.Verb == "patch" && c.PatchType == "json" {
-				// "invalid": the server could not apply the patch (also when that reply was lost in a crash)
-				if c.Err == "invalid" || (c.Outcome == "crashAfter" && !c.Applied) {
-					rec.Up = "invalid"
-				} else {
-					rec.Up = "ok"
 				}
 			}
 			checkStore(fmt.Sprintf("reconcile %d after call %d", ri, c.Index))
@@ -1224,7 +1287,7 @@ func c06Run(s *c06Scn) (c06Obs, []Mon) {
 			if obj == "claim" {
 				name = c.NS + "/" + c.Name
 			}
-			o.Calls = append(o.Calls, c06Call{Verb: c.Verb, Obj: obj, Name: name, Sub: c.Sub, PT: c.PatchType, Outcome: c.Outcome, Err: c.Err, Applied: c.Applied})
+			o.Calls = append(o.Calls, c06Call{Verb: c.Verb, Obj: obj, Name: name, Sub: c.Sub, PT: c.PatchType, Op: cache.ops[c.Index], Outcome: c.Outcome, Err: c.Err, Applied: c.Applied})
 		}
 		switch {
 		case st.Crashed():
@@ -1261,7 +1324,7 @@ func c06GenXR(r *Rng, name string, variant string) c06XR {
 	x.Fin = r.Chance(2, 3)
 	x.Deleting = x.Fin && r.Chance(1, 6)
 	x.Status = r.Chance(1, 2)
-	x.MF = Pick(r, []string{"legacy", "legacy", "legacy", "ssa", "ssa", "ssabfa", "ssabfa", "bfassa", "ssa3"})
+	x.MF = Pick(r, []string{"legacy", "legacy", "legacy", "ssa", "ssa", "ssabfa", "ssabfa", "bfassa", "ssa3", "bfa2", "bfaonly"})
 	return x
 }
 
@@ -1490,7 +1553,6 @@ func c06Cls(s *c06Scn, o c06Obs) string {
 		for _, x := range rec.XReads {
 			xstale = xstale || x.Stale
 		}
-		upg = upg || rec.Up != ""
 		ver := rec.XRV
 		if ver == "" {
 			ver = c06XRGVK.Version
@@ -1514,6 +1576,7 @@ func c06Cls(s *c06Scn, o c06Obs) string {
 				if c.Obj == "xr" && c.Applied && c.Verb == "delete" {
 					del = true
 				}
+				upg = upg || (c.Obj == "xr" && c.PT == "json")
 				if c.Outcome == "fail" || c.Outcome == "conflict" {
 					errf = true
 				}
